@@ -159,7 +159,8 @@ Proof.
     + destruct (ref_rank d); [|discriminate]. injection Es as <- <-. constructor; [exact Hit|exact HF].
     + destruct (ref_rank d); [|discriminate]. destruct (pop d fs t) as [fs1 t1] eqn:Ep. injection Es as <- <-.
       apply (pop_wfd d Hit _ _ _ _ HF Ha Ep).
-    + destruct (ref_rank d); [|discriminate]. destruct (pop d fs t) as [fs1 t1] eqn:Ep. injection Es as <- <-.
+    + destruct (ref_rank d); [|discriminate]. destruct (pop d fs t) as [fs1 t1] eqn:Ep.
+      destruct (sep_blocked d fs1); [discriminate|]. injection Es as <- <-.
       destruct (pop_wfd d Hit _ _ _ _ HF Ha Ep) as [H1 H2]. constructor; [exact H2|exact H1].
     + injection Es as <- <-. constructor; [exact I|exact HF].
     + destruct (close_group b fs t) as [[fs1 t1]|] eqn:Ec; [|discriminate]. injection Es as <- <-.
@@ -168,7 +169,8 @@ Proof.
     + destruct (ref_rank d); [|discriminate]. injection Es as <- <-. exact I.
     + destruct (ref_rank d); [|discriminate]. destruct (pop d fs t) as [fs1 t1] eqn:Ep. injection Es as <- <-.
       cbn [acc_wfd wfd]. apply (pop_wfd d Hit _ _ _ _ HF Ha Ep).
-    + destruct (ref_rank d); [|discriminate]. destruct (pop d fs t) as [fs1 t1] eqn:Ep. injection Es as <- <-. exact I.
+    + destruct (ref_rank d); [|discriminate]. destruct (pop d fs t) as [fs1 t1] eqn:Ep.
+      destruct (sep_blocked d fs1); [discriminate|]. injection Es as <- <-. exact I.
     + injection Es as <- <-. exact I.
     + destruct (close_group b fs t) as [[fs1 t1]|] eqn:Ec; [|discriminate]. injection Es as <- <-.
       cbn [acc_wfd]. apply (close_group_wfd _ _ _ _ _ HF Ha Ec).
@@ -294,8 +296,8 @@ Proof.
       pose proof (IH p None r) as E0. cbn [option_map] in E0. rewrite E0. clear E0.
       destruct (climb f p None r) as [[arg r']|]; [|reflexivity]. cbn [option_map untok_res fst snd].
       change (Some (RPre d 0 (untok arg))) with (option_map untok (Some (RPre d k arg))). apply IH.
-    + pose proof (IH INF None r) as E0. cbn [option_map] in E0. rewrite E0. clear E0.
-      destruct (climb f INF None r) as [[inner [|c r']]|]; try reflexivity. cbn [option_map untok_res fst snd map].
+    + pose proof (IH (blimit b) None r) as E0. cbn [option_map] in E0. rewrite E0. clear E0.
+      destruct (climb f (blimit b) None r) as [[inner [|c r']]|]; try reflexivity. cbn [option_map untok_res fst snd map].
       destruct c as [d0 k0|d0 k0|d0 k0|d0 k0|b0 k0|b0 k0]; cbn [untok_item]; try reflexivity.
       destruct (bkind_eqb b b0); [|reflexivity].
       change (Some (RGroup b 0 (untok inner))) with (option_map untok (Some (RGroup b k inner))). apply IH.
@@ -442,7 +444,7 @@ Proof.
     + destruct (ref_rank d) as [p|]; [|exact H].
       destruct (climb f p None r) as [[arg r']|] eqn:E; [|discriminate H].
       rewrite (IH _ _ _ _ E f' Hle'). exact (IH _ _ _ _ H f' Hle').
-    + destruct (climb f INF None r) as [[inner [|c r']]|] eqn:E; try discriminate H.
+    + destruct (climb f (blimit b) None r) as [[inner [|c r']]|] eqn:E; try discriminate H.
       rewrite (IH _ _ _ _ E f' Hle'). destruct c; try discriminate H.
       destruct (bkind_eqb b b0); [|discriminate H]. exact (IH _ _ _ _ H f' Hle').
 Qed.
@@ -466,7 +468,7 @@ Proof.
     + destruct (ref_rank d) as [p|]; [|discriminate H].
       destruct (climb f p None r0) as [[arg r']|] eqn:E; [|discriminate H].
       rewrite (IH _ _ _ _ _ E). exact (IH _ _ _ _ _ H).
-    + destruct (climb f INF None r0) as [[inner [|c0 r']]|] eqn:E; try discriminate H.
+    + destruct (climb f (blimit b) None r0) as [[inner [|c0 r']]|] eqn:E; try discriminate H.
       rewrite (IH _ _ _ _ _ E). cbn [app]. destruct c0; try discriminate H.
       destruct (bkind_eqb b b0); [|discriminate H]. exact (IH _ _ _ _ _ H).
 Qed.
@@ -490,12 +492,69 @@ Proof.
        rewrite <- app_assoc; reflexivity).
 Qed.
 
+(* without separators the limit of a round bracket and the outermost limit admit the same operators *)
+Definition lim_ok (it : item) : bool :=
+  match it with
+  | IBinary d _ | ISuffix d _ => Bool.eqb (inside d ROUND_LIMIT) (inside d INF)
+  | _ => true
+  end.
+
+Lemma climb_limit : forall f acc its, forallb lim_ok its = true ->
+  climb f ROUND_LIMIT acc its = climb f INF acc its.
+Proof.
+  induction f as [|f IH]; intros acc its HP; [reflexivity|].
+  destruct acc as [lhs|]; cbn [climb].
+  - destruct its as [|it r]; [reflexivity|].
+    assert (HPr : forallb lim_ok r = true) by (cbn [forallb] in HP; apply andb_true_iff in HP; apply HP).
+    destruct it as [d k|d k|d k|d k|b k|b k]; try reflexivity.
+    + cbn [forallb lim_ok] in HP. apply andb_true_iff in HP. destruct HP as [Hd _]. apply eqb_prop in Hd. rewrite Hd.
+      destruct (inside d INF); [|reflexivity]. apply IH. exact HPr.
+    + cbn [forallb lim_ok] in HP. apply andb_true_iff in HP. destruct HP as [Hd _]. apply eqb_prop in Hd. rewrite Hd.
+      destruct (inside d INF); [|reflexivity]. destruct (ref_rank d) as [p|]; [|reflexivity].
+      destruct (climb f p None r) as [[rhs r']|] eqn:E1; [|reflexivity].
+      apply IH. exact (climb_rest_forall _ _ _ _ _ _ _ E1 HPr).
+  - destruct its as [|it r]; [reflexivity|].
+    assert (HPr : forallb lim_ok r = true) by (cbn [forallb] in HP; apply andb_true_iff in HP; apply HP).
+    destruct it as [d k|d k|d k|d k|b k|b k]; try reflexivity.
+    + apply IH. exact HPr.
+    + destruct (ref_rank d) as [p|]; [|reflexivity].
+      destruct (climb f p None r) as [[arg r']|] eqn:E1; [|reflexivity].
+      apply IH. exact (climb_rest_forall _ _ _ _ _ _ _ E1 HPr).
+    + destruct (climb f (blimit b) None r) as [[inner [|c r']]|] eqn:E1; try reflexivity.
+      destruct c as [d0 k0|d0 k0|d0 k0|d0 k0|b0 k0|b0 k0]; try reflexivity.
+      destruct (bkind_eqb b b0); [|reflexivity]. apply IH.
+      pose proof (climb_rest_forall _ _ _ _ _ _ _ E1 HPr) as HP1. cbn [forallb] in HP1. apply andb_true_iff in HP1. apply HP1.
+Qed.
+
+Lemma tok_lim_ok t : sep_tok t = false ->
+  match ref_kind t with
+  | KBinary | KSuffix => Bool.eqb (inside (ref_def t) ROUND_LIMIT) (inside (ref_def t) INF)
+  | _ => true end = true.
+Proof. destruct t; intros H; try reflexivity; discriminate H. Qed.
+
+Lemma items_of_lim_ok : forall l i prev sp its, no_separators l = true ->
+  items_of l i prev sp = Some its -> forallb lim_ok its = true.
+Proof.
+  induction l as [|t r IH]; intros i prev sp its Hns H; [injection H as <-; reflexivity|].
+  cbn [no_separators forallb] in Hns. apply andb_true_iff in Hns. destruct Hns as [Ht Hns]. apply negb_true_iff in Ht.
+  fold (no_separators r) in Hns. cbn [items_of] in H. pose proof (tok_lim_ok t Ht) as Hk.
+  assert (Hlead : forallb lim_ok
+                    (match prev with
+                     | Some p => if sp && ends_value_k p && starts_value_k (ref_kind t) then [IBinary D_List None] else []
+                     | None => [] end) = true).
+  { destruct prev as [p|]; [|reflexivity]. destruct (sp && ends_value_k p && _); reflexivity. }
+  destruct (ref_kind t) eqn:Ek; try discriminate H; try (eapply IH; [exact Hns|exact H]);
+    (destruct (items_of r (S i) _ false) as [rest|] eqn:E; [|discriminate H]; injection H as <-;
+     cbn [starts_value_k] in Hlead; rewrite forallb_app, Hlead; cbn [forallb andb]; rewrite (IH _ _ _ _ Hns E), andb_true_r;
+     first [reflexivity | exact Hk]).
+Qed.
+
 (* the reference tree of `( toks )` is the group of the reference tree of `toks` *)
 Lemma pratt_wrapped toks T :
-  pratt toks = Some T ->
+  no_separators toks = true -> pratt toks = Some T ->
   pratt (TT_StartGroup :: toks ++ [TT_EndGroup]) = Some (RGroup BRound 0 (shift_rtree 1 T)).
 Proof.
-  intros Hpr. unfold pratt in *. destruct (items_of toks 0 None false) as [its|] eqn:Hits; [|discriminate].
+  intros Hns Hpr. unfold pratt in *. destruct (items_of toks 0 None false) as [its|] eqn:Hits; [|discriminate].
   destruct (climb (4 * length its + 8) INF None its) as [[T1 [|c rc]]|] eqn:Hcl; try discriminate.
   injection Hpr as ->.
   cbn [items_of ref_kind app]. rewrite items_of_app_close, items_of_after_open.
@@ -504,22 +563,27 @@ Proof.
   set (F' := 4 * length (IOpen BRound 0 :: its1 ++ [IClose BRound (1 + length toks)]) + 8).
   assert (HF' : F' = S (4 * length its + 15)).
   { unfold F', its1. cbn [length]. rewrite app_length, map_length. cbn [length]. lia. }
-  rewrite HF'. cbn [climb].
+  rewrite HF'. cbn [climb blimit].
   pose proof (climb_shift 1 (4 * length its + 8) INF None its) as Cs. cbn [option_map] in Cs.
   rewrite Hcl in Cs. cbn [option_map shift_res fst snd map] in Cs. fold its1 in Cs.
   pose proof (climb_fuel_mono _ _ _ _ _ Cs (4 * length its + 15) ltac:(lia)) as Cm.
+  assert (Hlo : forallb lim_ok its1 = true).
+  { unfold its1. pose proof (items_of_lim_ok _ _ _ _ _ Hns Hits) as H0. clear -H0.
+    induction its as [|it r IH]; [reflexivity|]. cbn [map forallb] in *. apply andb_true_iff in H0. destruct H0 as [H1 H2].
+    rewrite (IH H2), andb_true_r. destruct it as [d k|d k|d k|d [k|]|k0 k|k0 k]; exact H1. }
+  rewrite <- (climb_limit _ None its1 Hlo) in Cm.
   rewrite (climb_app_close BRound _ [] _ _ _ _ _ _ Cm). cbn [app].
   destruct (4 * length its + 15) as [|f] eqn:Ef; [lia|]. reflexivity.
 Qed.
 
 Theorem parens_whole_program (toks : list token_type) (T : rtree) :
-  pratt toks = Some T ->
+  no_separators toks = true -> pratt toks = Some T ->
   exists g g', parse_tree toks = Some g /\ parse_tree (TT_StartGroup :: toks ++ [TT_EndGroup]) = Some g' /\
                strip_groups g' = strip_groups g.
 Proof.
-  intros Hpr. exists (rg false T), (rg false (RGroup BRound 0 (shift_rtree 1 T))).
-  split; [apply parse_tree_pratt; exact Hpr|]. split; [apply parse_tree_pratt, pratt_wrapped; exact Hpr|].
-  cbn [rg strip_groups]. rewrite rg_shift. reflexivity.
+  intros Hns Hpr. exists (rg false T), (rg false (RGroup BRound 0 (shift_rtree 1 T))).
+  split; [apply parse_tree_pratt; exact Hpr|]. split; [apply parse_tree_pratt, pratt_wrapped; assumption|].
+  cbn [rg strip_groups bdef]. rewrite rg_shift. reflexivity.
 Qed.
 
 (* the statements in the form of Properties/C18.v *)
